@@ -24,33 +24,41 @@ XSD_A = ('<xs:schema xmlns:xs="http://www.w3.org/2001/XMLSchema" targetNamespace
 
 
 def attr_decl(name, d, variant):
+    """variant % 4: inline / global ref / attribute group / nested groups;  variant >= 4: the schema says
+    attributeFormDefault="qualified", so x carries an explicit form="unqualified" and y relies on the default."""
     if d["use"] == "none":
         return ""
+    qdef = variant >= 4
+    base = variant % 4
     vc = {"none": "", "fixed": ' fixed="1"', "default": ' default="1"'}[d["vc"]]
-    use = "" if d["use"] == "optional" and variant % 2 else f' use="{d["use"]}"'
+    use = "" if d["use"] == "optional" and base % 2 else f' use="{d["use"]}"'
     if name == "x":
-        return f'<xs:attribute name="x" type="xs:integer"{use}{vc}/>'
-    if variant in (1, 3):        # reference to the global attribute t:y
+        form = ' form="unqualified"' if qdef else ""
+        return f'<xs:attribute name="x"{form} type="xs:integer"{use}{vc}/>'
+    if base in (1, 3):        # reference to the global attribute t:y
         return f'<xs:attribute ref="t:y"{use}{vc}/>'
-    return f'<xs:attribute name="y" form="qualified" type="xs:integer"{use}{vc}/>'
+    form = "" if qdef else ' form="qualified"'
+    return f'<xs:attribute name="y"{form} type="xs:integer"{use}{vc}/>'
 
 
 def schema_xsd(d0, dT, w, variant):
     a0, aT = attr_decl("x", d0, variant), attr_decl("y", dT, variant)
+    base = variant % 4
     wild = "" if w["c"] == "none" else \
         f'<xs:anyAttribute namespace="{WC[w["c"]]}" processContents="{w["pc"]}"/>'
     groups = ""
-    if variant == 0 or variant == 1:
+    if base == 0 or base == 1:
         body = a0 + aT + wild
-    elif variant == 2:           # one attribute group holding the declarations, wildcard local
+    elif base == 2:           # one attribute group holding the declarations, wildcard local
         groups = f'<xs:attributeGroup name="g1">{a0}{aT}</xs:attributeGroup>'
         body = '<xs:attributeGroup ref="t:g1"/>' + wild
     else:                        # nested groups; the wildcard sits in the inner group
         groups = (f'<xs:attributeGroup name="g2">{aT}{wild}</xs:attributeGroup>'
                   f'<xs:attributeGroup name="g1">{a0}<xs:attributeGroup ref="t:g2"/></xs:attributeGroup>')
         body = '<xs:attributeGroup ref="t:g1"/>'
+    afd = ' attributeFormDefault="qualified"' if variant >= 4 else ""
     return (f'<xs:schema xmlns:xs="{cm.XS}" targetNamespace="urn:T" xmlns:t="urn:T" '
-            f'elementFormDefault="qualified"><xs:import namespace="urn:A"/>'
+            f'elementFormDefault="qualified"{afd}><xs:import namespace="urn:A"/>'
             f'<xs:attribute name="y" type="xs:integer"/>{groups}'
             f'<xs:element name="e"><xs:complexType>{body}</xs:complexType></xs:element></xs:schema>')
 
@@ -154,7 +162,7 @@ def run(ctx: Ctx):
     by = collections.defaultdict(list)
     for rec in r.json_records():
         by[json.dumps([rec["d0"], rec["dT"], rec["w"]], sort_keys=True)].append(rec)
-    jobs = [(tuple(json.loads(k)), recs, i % 4) for i, (k, recs) in enumerate(sorted(by.items()))]
+    jobs = [(tuple(json.loads(k)), recs, i % 8) for i, (k, recs) in enumerate(sorted(by.items()))]
     res = ctx.pmap(judge, jobs)
     total = 0
     for ((d0, dT, w), recs, variant), (bad, n) in zip(jobs, res):
@@ -175,7 +183,7 @@ def run(ctx: Ctx):
                 "none, fixed, default) x wildcard (none or 4 constraints x strict/lax/skip) x attribute "
                 "set over {unqualified, target, declared-foreign, unknown} x value classes, as "
                 "enumerated by TLC from spec/Attributes.tla; rendering variant rotates with the "
-                "declaration index (inline, global ref, attribute group, nested groups); both classes")
+                "declaration index (inline, global ref, attribute group, nested groups; each with and without attributeFormDefault=qualified + explicit form=unqualified); both classes")
     ctx.assumptions += ["all attributes are xs:integer; value constraints are '1'; '01' is the same "
                         "value in another lexical form", "xsi:* attributes are not in the universe"]
     ctx.extra["declaration_sets"] = len(jobs)
